@@ -79,7 +79,9 @@ USAGE = [['--no-such-option', 'c.case'], [], ['no-such-file.case'], ['--actor'],
          ['--preprocessor'], ['--suite'], ['--suite', 'no-such.suite', 'c.case'], ['c.case', 'extra-arg'],
          ['--keep', 'no-such-file.case'], ['--act', 'no-such-file.case'], ['-x'],
          # a FILE that cannot be reached: a symbolic-link loop, a name below a regular file
-         ['loop.case'], ['--suite', 'loop.suite', 'c.case'], ['c.case/x.case'], ['--keep', 'loop.case'], ['--act', 'loop.case'], ['--suite', 'c.case/s.suite', 'c.case']]
+         ['loop.case'], ['--suite', 'loop.suite', 'c.case'], ['c.case/x.case'], ['--keep', 'loop.case'], ['--act', 'loop.case'], ['--suite', 'c.case/s.suite', 'c.case']] + [
+         # an --actor / --preprocessor argument that holds no command: empty, only white space, unbalanced quotes - in every output mode
+         mode + [opt, val, 'c.case'] for opt in ('--actor', '--preprocessor') for val in ('', ' ', '\t', ' \t ', '\n', "'", '"a') for mode in ([], ['--keep'], ['--act'])]
 
 
 def prepare(tier):
@@ -173,6 +175,9 @@ def run(case) -> Result:
             errs.append('invalid usage %s: exit code %s, expected 64' % (argv, o.rc))
         if o.out != '':
             errs.append('invalid usage: stdout not empty: %r' % o.out[:100])
+        if any(l in ('PASS', 'FAIL', 'SKIPPED', 'XFAIL', 'XPASS', 'SYNTAX_ERROR', 'FILE_ACCESS_ERROR', 'PRE_PROCESS_ERROR', 'VALIDATION_ERROR', 'HARD_ERROR', 'INTERNAL_ERROR')
+               for l in o.err.split('\n')):
+            errs.append('invalid usage: an exit identifier was printed: %r' % o.err[:120])
         if seam.calls:
             errs.append('invalid usage: a process was started')
         res.outcomes[('usage', o.rc)] += 1
